@@ -452,26 +452,30 @@ def ptr_cast(I, a, sd, dd):
         q.elem = I.usize(0)
         q.view = None
         return q
+    # pointer to (a wrapper of) an array of T cast to pointer to T: element pointer
+    if isinstance(q, Ptr) and q.elem is None and q.length is None and I.cur_state is not None and dp.get('size'):
+        nb = I.array_base(q, I.cur_state, dt_)
+        if nb is not None:
+            return nb
     # same representation (transparent wrappers) : keep the location, change the view
     q.view = dt_
     return q
 
 
 def ptr_addr(I, a):
-    """low bits of an address, from the alignment of the allocation"""
+    """what is known about the numeric address of a pointer: its low bits, from the alignment of the allocation"""
     from interp import RawPtr, Unsupported
     w = I.ptr_bits
     if isinstance(a, RawPtr):
         al, _ = I.alloc(a.aid)
         align = al.get('align', 1)
-        off = a.off
+        off = I.usize(a.off)
         if a.elem is not None:
-            if a.elem.const is None:
-                return topint(w)
-            es = I.types[a.view].get('size', 1) if a.view is not None else 1
-            off += a.elem.const * es
-        low = off % align
-        return AInt(w, 1, M(w), (align - 1) & ~low, low)
+            eu = a.eunit or (I.types[a.view].get('size', 1) if a.view is not None else 1)
+            t, _ = binop(I, 'Mul', a.elem, I.usize(eu), w, False)
+            off, _ = binop(I, 'Add', off, t, w, False)
+        mask = align - 1
+        return AInt(w, 1, M(w), off.kz & mask, off.ko & mask)
     return AInt(w, 1, M(w))
 
 
